@@ -1,6 +1,7 @@
 package checks
 
 import (
+	"strings"
 	"verif/sim/kit"
 	"verif/sim/model"
 	"verif/sim/schema"
@@ -94,7 +95,7 @@ func (g *opGen) next(cur *model.Tree) sess.Op {
 	paths := cur.AllPaths()
 	var at model.Path
 	switch kind {
-	case "delete", "replace", "sweep":
+	case "delete", "replace", "sweep", "batch-delete", "list-session":
 		if len(paths) == 0 {
 			kind = "upsert"
 		} else {
@@ -103,6 +104,74 @@ func (g *opGen) next(cur *model.Tree) sess.Op {
 	default:
 		if len(paths) > 0 && r.Chance(2, 3) {
 			at = paths[r.Intn(len(paths))]
+		}
+	}
+	if kind == "batch-delete" {
+		// two to four containers, none inside another and none inside a list entry that
+		// another of them lies in... simply: pairwise not prefixes of one another
+		var conts []model.Path
+		for _, p := range paths {
+			if p[len(p)-1].Key == nil {
+				if loc, ok := cur.Resolve(p); ok && loc.Tree != nil {
+					conts = append(conts, p)
+				}
+			}
+		}
+		for i := len(conts) - 1; i > 0; i-- {
+			j := r.Intn(i + 1)
+			conts[i], conts[j] = conts[j], conts[i]
+		}
+		var pick []model.Path
+		for _, p := range conts {
+			ok := true
+			for _, q := range pick {
+				if isPrefix(p, q) || isPrefix(q, p) {
+					ok = false
+				}
+			}
+			if ok {
+				pick = append(pick, p)
+			}
+			if len(pick) == 4 {
+				break
+			}
+		}
+		if len(pick) >= 2 {
+			return sess.Op{Kind: "batch-delete", Paths: pick}
+		}
+		kind = "delete"
+	}
+	if kind == "list-session" {
+		var lists []model.Path
+		for _, p := range paths {
+			if p[len(p)-1].Key == nil {
+				if loc, ok := cur.Resolve(p); ok && loc.Tree == nil && loc.List != nil && len(loc.List.Entries) >= 2 {
+					lists = append(lists, p)
+				}
+			}
+		}
+		if len(lists) == 0 {
+			kind = "delete"
+		} else {
+			at = lists[r.Intn(len(lists))]
+			loc, _ := cur.Resolve(at)
+			es := loc.List.Entries
+			n := r.Range(1, len(es)-1)
+			first := r.Intn(len(es))
+			op := sess.Op{Kind: "list-session", At: at, SrcKind: g.srcs[r.Intn(len(g.srcs))]}
+			back := &model.ListT{S: loc.S}
+			for i := 0; i < n; i++ {
+				e := es[(first+i)%len(es)]
+				op.Keys = append(op.Keys, e.Key())
+				// the same key comes back, with fresh content
+				ne := model.Random(r, loc.S, g.o, 1)
+				for ki, k := range loc.S.Keys {
+					ne.Leaf[k] = e.Key()[ki]
+				}
+				back.Entries = append(back.Entries, ne.DropEmptyLists())
+			}
+			op.List = back
+			return op
 		}
 	}
 	if kind == "sweep" {
@@ -216,4 +285,16 @@ func (g *opGen) next(cur *model.Tree) sess.Op {
 	// an XML document cannot mention a list without entries; keep payloads unambiguous
 	op.Tree = p.DropEmptyLists()
 	return op
+}
+
+func isPrefix(a, b model.Path) bool {
+	if len(a) > len(b) {
+		return false
+	}
+	for i := range a {
+		if a[i].Name != b[i].Name || strings.Join(a[i].Key, "\x00") != strings.Join(b[i].Key, "\x00") || (a[i].Key == nil) != (b[i].Key == nil) {
+			return false
+		}
+	}
+	return true
 }
